@@ -69,6 +69,26 @@ func (s *source) c11Calls(fd *ast.FuncDecl, prefixes ...string) []string {
 	return out
 }
 
+// c11LitFields lists the key: value pairs of the first composite literal of a function, as printed source
+func (s *source) c11LitFields(fd *ast.FuncDecl) []string {
+	var out []string
+	done := false
+	ast.Inspect(fd.Body, func(n ast.Node) bool {
+		if done {
+			return false
+		}
+		if cl, ok := n.(*ast.CompositeLit); ok {
+			done = true
+			for _, el := range cl.Elts {
+				out = append(out, s.src(el))
+			}
+			return false
+		}
+		return true
+	})
+	return out
+}
+
 // c11Conds lists the conditions of every if / for statement and every return expression list, in source order.
 func (s *source) c11Conds(fd *ast.FuncDecl) []string {
 	var out []string
@@ -526,6 +546,10 @@ func init() {
 		e.c11List(s, f, "PeriodicalExecutor.Flush", "flushConds", "conditions and returns", s.c11Conds)
 		// the containers: every statement, and the threshold comparison
 		const b = "core/executors/bulkexecutor.go"
+		e.constDef(s, b, "defaultBulkTasks", "defaultBulkTasks")
+		e.constDef(s, "core/executors/chunkexecutor.go", "defaultChunkSize", "defaultChunkSize")
+		e.constDef(s, "core/executors/vars.go", "defaultFlushInterval", "defaultFlushInterval")
+		e.constDef(s, "core/stores/sqlx/bulkinserter.go", "flushInterval", "sqlxFlushInterval")
 		e.shapeDef(s, b, "bulkContainer.AddTask", "bulkAddTaskShape")
 		e.shapeDef(s, b, "bulkContainer.RemoveAll", "bulkRemoveAllShape")
 		e.shapeDef(s, b, "bulkContainer.Execute", "bulkExecuteShape")
@@ -578,6 +602,17 @@ func init() {
 			map[string]string{"val.Len()": "valLen"})
 		e.c11CondFn(s, f, "PeriodicalExecutor.executeTasks", 0, "executesFn", "(ok : Bool)", nil)
 		e.c11CondFn(s, f, "PeriodicalExecutor.Add", 0, "addSendsFn", "(ok : Bool)", nil)
+		// options and constructors: every statement
+		e.c11List(s, b, "newBulkOptions", "newBulkOptionsStmts", "statements", s.c11Stmts)
+		e.c11List(s, b, "WithBulkTasks", "withBulkTasksStmts", "statements", s.c11Stmts)
+		e.c11List(s, b, "WithBulkInterval", "withBulkIntervalStmts", "statements", s.c11Stmts)
+		e.c11List(s, "core/executors/chunkexecutor.go", "newChunkOptions", "newChunkOptionsStmts", "statements", s.c11Stmts)
+		e.c11List(s, "core/executors/chunkexecutor.go", "WithChunkBytes", "withChunkBytesStmts", "statements", s.c11Stmts)
+		e.c11List(s, "core/executors/chunkexecutor.go", "WithFlushInterval", "withFlushIntervalStmts", "statements", s.c11Stmts)
+		e.c11List(s, f, "NewPeriodicalExecutor", "newPeriodicalFields", "fields of the executor literal", s.c11LitFields)
+		e.c11List(s, f, "PeriodicalExecutor.backgroundFlush", "tickerCalls", "ticker construction",
+			func(fd *ast.FuncDecl) []string { return s.c11Calls(fd, "pe.newTicker") })
+		e.c11List(s, "core/stores/sqlx/bulkinserter.go", "NewBulkInserter", "sqlxNewStmts", "statements", s.c11Stmts)
 		// semantic tie: the container methods as Lean functions over abstract slice primitives
 		const prims = "{H S T : Type} (append : H → S → T → H × S) (len : S → Int) (nilS : S) (slice0 : S → S) "
 		e.c11Translated(s, b, "bulkContainer.AddTask", "bulkAddTaskFn", prims+"(hp : H) (f_tasks : S) (f_maxTasks : Int) (task : T)",
